@@ -250,10 +250,12 @@ func ghostAddOnly(idx *WorkspaceIndex, path string, fi *FileIndex) {
 //@   effects none
 //@   requires w != nil && w.index != nil
 
+//@ pred WsOK(w, path) := w.index != nil ==> IdxWF(w.index) && RemOK(w.index, w.index.fileIndexes[path])
+
 // If the file's index entry was replaced, none of the memoised views survives the update.
 //@ func (*Workspace).UpdateFile
 //@   props C12 C04 C18
-//@   requires w != nil && (w.index != nil ==> IdxWF(w.index) && RemOK(w.index, w.index.fileIndexes[path]))
+//@   requires w != nil && WsOK(w, path)
 //@   ensures [C12,C04,C18:caches_dropped_on_update] w.index != nil && fresh(w.index.fileIndexes[path]) ==> w.cachedAccounts == nil && w.cachedCommodities == nil && w.cachedFormats == nil
 //@   modifies w.cachedFormats, w.cachedCommodities, w.cachedAccounts, w.resolved, w.includeGraph[*], w.reverseGraph[*]
 //@   modifies w.index.accountCounts[*], w.index.payeeCounts[*], w.index.commodityCounts[*], w.index.tagCounts[*], w.index.dateCounts[*], w.index.payeeTemplates[*], w.index.fileIndexes[*], w.index.tagValueCounts[*], w.index.tagValueCounts[*][*], w.index.transactionsByKey[*]
